@@ -84,7 +84,9 @@ func (t *cellTr) newCell(init string) *cell {
 	t.cur[c] = init
 	return c
 }
-func (t *cellTr) emit(name, rhs string) { t.out = append(t.out, fmt.Sprintf("  let %s := %s", name, rhs)) }
+func (t *cellTr) emit(name, rhs string) {
+	t.out = append(t.out, fmt.Sprintf("  let %s := %s", name, rhs))
+}
 func (t *cellTr) fail(n ast.Node, msg string) {
 	panic(fmt.Sprintf("%s: unsupported construct in %s.%s: %s", t.fset.Position(n.Pos()), t.pkg, t.fname, msg))
 }
